@@ -143,7 +143,7 @@ type waitLoop struct {
 	wait     *ssa.Call
 	cls      *lockClass
 	condFld  *types.Var
-	head     *ssa.BasicBlock        // loop head reached unconditionally after Wait
+	head     *ssa.BasicBlock          // loop head reached unconditionally after Wait
 	body     map[*ssa.BasicBlock]bool // blocks of the loop (on a cycle through the wait block)
 	predFlds map[*types.Var]bool      // fields read while evaluating the predicate (through callees)
 	closedIf []*ssa.If                // exits on a closed flag
